@@ -24,6 +24,7 @@ From Coq Require Import List NArith Arith Bool Strings.String.
 From V Require Import Base.Bytes Base.Res Model.Ast Model.Strings Model.Feed Model.FrontMatter Model.RefDef Model.Blocks
   Spec.LineEndings Spec.Valid Spec.EscapeSpec Proofs.FeedProofs Proofs.ValidProofs Proofs.BlocksProofs Proofs.BlocksCursor
   Proofs.BlocksTight Proofs.RefDefTitle Proofs.BlocksTotal.
+From V Require Proofs.BlocksTotal2Safe Proofs.BlocksTotal2Root Proofs.BlocksTotal2Tree Proofs.BlocksTotal2Walk.
 Import ListNotations.
 Local Open Scope string_scope.
 Local Open Scope list_scope.
@@ -128,7 +129,9 @@ Print Assumptions Blocks_lines_lf_terminated.
    finalize under explicit premises on the node.  MISSING for the full statement: that every handler of
    check_open_blocks / open_new_blocks keeps the cursor, tree and boundary invariants (per scanner: a match ends inside
    the line at an ASCII byte; where a column-mode advance lands), the closing loops (finalize_up_to,
-   add_child_loop), parse_reference_inline on NUL-free valid content, the table functions, the fuel bounds. *)
+   add_child_loop), parse_reference_inline on NUL-free valid content, the table functions, the fuel bounds.
+   Second round (end of this file): the tree-lookup sites are proved unreachable for every input when tables and
+   description lists are off (Blocks_total_partial_tree_sites); the list of what remains is in the comment there. *)
 Definition Blocks_total_full_statement : Prop :=
   forall o x, utf8_valid x = true -> exists r, parse_blocks o x = Ok r.
 
@@ -259,3 +262,85 @@ Example Blocks_example :
             blocks_tree opts_default (to_crlf x) = blocks_tree opts_default x /\
             List.length (bkids (br_root r)) = 3.
 Proof. vm_compute. eexists. repeat split. Qed.
+
+(* ---- totality, second round (Proofs/BlocksTotal2*.v): the TREE side, for EVERY input and state.
+   tree_sites (Proofs/BlocksTotal2Safe.v) = the Panic sites that are tree lookups: model:no-such-node, the unwraps of
+   a parent / of the result of finalize in check_open_blocks, parse_code_block_prefix,
+   parse_multiline_block_quote_prefix, parse_desc_list_details, add_text_to_container (container),
+   finalize_document, feed, and insert_after without parent.  `safe Q r`: r = Ok a -> Q a, r = Panic s -> s is not
+   one of them.  W o st = identifiers pairwise distinct and below ps_next, block values, table shape (TI), the
+   containment relation (SV), the root has identifier 0 (R0); `has st x` = x is the identifier of a node.
+   PROVED (Blocks_total_partial_tree_sites), for EVERY input byte string (valid UTF-8 or not) and every option set with
+   the table and description-list extensions off: parse_blocks never answers Panic at one of the eleven tree_sites
+   (the list is pinned below: Blocks_total_tree_sites_list).  The walk (Proofs/BlocksTotal2Walk.v) carries, through
+   check_open_blocks, every handler of open_new_blocks, add_text_to_container, process_line, finalize_document and
+   the front matter prologue: W, presence of every identifier that is looked up, `the container handed on is a
+   paragraph only if it is the last matched one`, and `self.current is present or is the last matched container`.
+   Also proved for every state with W: finalize and the closing loop of add_child never fail at a tree site, keep W,
+   return the parent, and remove at most the node itself and only if it is a paragraph (the
+   reference-definition-only case: a leaf); the root keeps identifier 0.
+   REMAINING on the tree side: the same walk through try_opening_block (table.rs) and parse_desc_list_details
+   (hence the two premises); the sites that need the chain of OPEN nodes from the root to self.current:
+   mod.rs:finalize_borrowed:assert!(ast.open), mod.rs:add_line:assert!(ast.open),
+   mod.rs:add_text_to_container:self.finalize(self.current).unwrap(); and
+   mod.rs:add_child:self.finalize(parent).unwrap() (the Document accepts every block the handlers create except
+   items / rows / description parts, whose parent is created just before).
+   REMAINING for Blocks_total_full_statement beyond the tree side: the fuel bounds (OutOfFuel), the cursor
+   invariant CI through every handler (all index / slice / subtraction sites of mod.rs and table.rs), the UTF-8
+   boundary of every from_utf8 site, parse_reference_inline on NUL-free content. *)
+Theorem Blocks_total_partial_root_id : forall o x r,
+  parse_blocks o x = Ok r -> bid (br_root r) = root_id.
+Proof. exact BlocksTotal2Tree.parse_blocks_root_id. Qed.
+Print Assumptions Blocks_total_partial_root_id.
+
+Theorem Blocks_total_partial_finalize_tree : forall o st id,
+  BlocksTotal2Tree.W o st -> BlocksTotal2Tree.has st id ->
+  BlocksTotal2Safe.safe
+    (fun r => BlocksTotal2Tree.W o (snd r) /\ BlocksTotal2Tree.FIN st id (fst r) (snd r))
+    (finalize o st id).
+Proof. exact BlocksTotal2Tree.finalize_tree_safe. Qed.
+Print Assumptions Blocks_total_partial_finalize_tree.
+
+Theorem Blocks_total_partial_add_child_loop_tree : forall o k fuel st parent,
+  BlocksTotal2Tree.W o st -> BlocksTotal2Tree.has st parent ->
+  BlocksTotal2Safe.safe
+    (fun r => BlocksTotal2Tree.W o (snd r) /\ BlocksTotal2Tree.has (snd r) (fst r)
+              /\ BlocksTotal2Tree.lose parent st (snd r)
+              /\ (BlocksTotal2Tree.ispara st parent = false -> BlocksTotal2Tree.same st (snd r)))
+    (add_child_loop fuel o st parent k).
+Proof. exact BlocksTotal2Tree.add_child_loop_tree_safe. Qed.
+Print Assumptions Blocks_total_partial_add_child_loop_tree.
+
+Theorem Blocks_total_partial_init_state : forall o, BlocksTotal2Tree.W o init_state.
+Proof. exact BlocksTotal2Tree.W_init. Qed.
+Print Assumptions Blocks_total_partial_init_state.
+
+Theorem Blocks_total_tree_sites_list :
+  BlocksTotal2Safe.tree_sites =
+  [ "model:no-such-node";
+    "mod.rs:check_open_blocks:container.parent().unwrap()";
+    "mod.rs:parse_code_block_prefix:finalize_borrowed(container, ast).unwrap()";
+    "mod.rs:parse_multiline_block_quote_prefix:finalize_borrowed(child, child_ast).unwrap()";
+    "mod.rs:parse_multiline_block_quote_prefix:finalize_borrowed(container, ast).unwrap()";
+    "mod.rs:parse_desc_list_details:container.last_child().unwrap()";
+    "mod.rs:parse_desc_list_details:last_child.parent().unwrap()";
+    "arena_tree.rs:insert_after:self.parent (no parent)";
+    "mod.rs:add_text_to_container:self.finalize(container).unwrap()";
+    "mod.rs:finalize_document:self.finalize(self.current).unwrap()";
+    "mod.rs:feed:self.finalize(node).unwrap()" ].
+Proof. reflexivity. Qed.
+Print Assumptions Blocks_total_tree_sites_list.
+
+(* no tree-lookup Panic site is reachable: every input, every option set without tables / description lists *)
+Theorem Blocks_total_partial_tree_sites : forall o x s,
+  bo_table o = false -> bo_description_lists o = false ->
+  In s BlocksTotal2Safe.tree_sites -> parse_blocks o x <> Panic s.
+Proof. exact BlocksTotal2Walk.parse_blocks_no_tree_panic. Qed.
+Print Assumptions Blocks_total_partial_tree_sites.
+
+(* the line invariant of the walk: W and self.current present, kept by process_line *)
+Theorem Blocks_total_partial_process_line_tree : forall o st line0,
+  bo_table o = false -> bo_description_lists o = false -> BlocksTotal2Walk.LI o st ->
+  BlocksTotal2Safe.safe (BlocksTotal2Walk.LI o) (process_line o st line0).
+Proof. exact BlocksTotal2Walk.process_line_spec. Qed.
+Print Assumptions Blocks_total_partial_process_line_tree.
